@@ -89,7 +89,7 @@ theorem execStmt_ideal (rs ws : SideSem) (A : List (List String)) (N : List Stri
       | true =>
         have hd : derefOk rs.ptrs N rl.path = true := by rw [derefOk_eq]; exact hn
         simp only [hn, hd, hf, stratValue_eq, Bool.not_true, Bool.false_eq_true, ↓reduceIte]
-        cases idealValue c.strat (readLeaf N rl) with
+        cases idealValue c.strat (readVal N c rl) with
         | none => simp only
         | some v => simp only [hwr, ↓reduceIte]
 
